@@ -25,6 +25,13 @@ def corpus(tier):
         if tier != "quick":
             stride = max(1, stride // 3)
         items += [("fam", fname, d) for d in its[::stride]]
+    # every F2 design (k=2, scalar ports) in which all four ports are tied by plain references only: pure reference cycles,
+    # where the implicit signal's name is decided among ports that are all connected
+    f2 = importlib.import_module("hv.families.f2_portrefs")
+    menus = f2.menus_for(2, 1, True)
+    for d in f2.items("quick"):
+        if d[0] == 2 and d[1] == 1 and all(menus[j][ix] is not None and menus[j][ix][0] == "pref" for j, ix in enumerate(d[3])):
+            items.append(("fam", "f2_portrefs", d))
     for dname in dags.DAGS:
         for top in dags.DAGS[dname]()["modules"]:
             items.append(("dag", dname, top))
@@ -141,7 +148,7 @@ for k in range(noise %% 7):
     m.r = h.R(r=k)(p=m.s[0], n=m.s[0])
     h.elaborate(m)
 from hv.checks import c12
-items = c12.corpus("quick")
+items = c12.corpus(%r)
 out = {}
 for idx in %r:
     it = items[idx]
@@ -182,7 +189,7 @@ def run(ctx):
     procs = []
     for s in seeds:
         env = dict(os.environ, PYTHONHASHSEED=s)
-        code = SEEDLEG % (str(ROOT), rnd.randrange(1, 10**6), idxs)
+        code = SEEDLEG % (str(ROOT), rnd.randrange(1, 10**6), ctx.tier, idxs)
         procs.append((s, subprocess.Popen([sys.executable, "-W", "ignore", "-c", code], stdout=subprocess.PIPE, stderr=subprocess.PIPE, text=True, env=env)))
     outs = {}
     for s, p in procs:
